@@ -202,7 +202,8 @@ class Native:
 # proof parts
 
 class ProofPart:
-    def __init__(self, unit, label=None, build_kwargs=None, native=None, own_only=False):
+    def __init__(self, unit, label=None, build_kwargs=None, native=None, own_only=False, optional=False):
+        self.optional = optional      # an extra program of the thorough tier: a shape the contract generator does not cover is skipped (noted), only a failed obligation counts
         self.own_only = own_only      # report only failures inside the functions this part lists (the others belong to the part that owns them)
         self.unit = unit
         self.label = label or unit.NAME
@@ -221,6 +222,13 @@ class ProofPart:
         return self.unit.build(REPO, canary=canary, **self.kw)
 
     def run(self, tier):
+        r = self._run(tier)
+        if self.optional and r.status == 'undecided':
+            r.notes.append('not under contract (extra program skipped): %s: %s' % (self.label, r.reason[:300]))
+            r.status, r.reason = 'ok', 'skipped: ' + r.reason[:200]
+        return r
+
+    def _run(self, tier):
         u = self.unit
         r = PartResult(self.label, 'proof')
         t0 = time.time()
